@@ -65,14 +65,15 @@ func c12MakePool(t testing.TB) *c12Pool {
 		dns     []string
 		managed bool
 		issuer  string
+		uris    []string
 	}
 	specs := []spec{
-		{"", []string{"a.example", "b.example", "u0.example"}, true, "i1"},
-		{"", []string{"a.example", "u1.example"}, true, "i2"},
-		{"", []string{"*.example", "b.example"}, false, ""},
-		{"a.example", []string{"a.example", "c.example", "c.example", "u3.example"}, true, "i1"}, // duplicate name
-		{"", []string{"c.example"}, false, ""},
-		{"", []string{"b.example", "u5.example", "b.example", "*.b.example"}, true, "i2"}, // duplicate name
+		{"", []string{"a.example", "b.example", "u0.example"}, true, "i1", nil},
+		{"", []string{"a.example", "u1.example"}, true, "i2", nil},
+		{"", []string{"*.example", "b.example"}, false, "", nil},
+		{"a.example", []string{"a.example", "c.example", "c.example", "u3.example"}, true, "i1", nil}, // duplicate name
+		{"", []string{"c.example"}, false, "", []string{"urn:Mixed-Case-Svc"}}, // a name the library keeps with its case
+		{"", []string{"b.example", "u5.example", "b.example", "*.b.example"}, true, "i2", nil}, // duplicate name
 	}
 	p := &c12Pool{hashTok: map[string]string{}}
 	seen := map[string]bool{}
@@ -86,7 +87,7 @@ func c12MakePool(t testing.TB) *c12Pool {
 			t.Fatal(err)
 		}
 		certPEM, _ := ca.Sign(vLeafSpec{DNS: s.dns, CN: s.cn, NotBefore: now.Add(-time.Hour), NotAfter: now.Add(90 * 24 * time.Hour),
-			Pub: &priv.PublicKey})
+			Pub: &priv.PublicKey, URIs: s.uris})
 		c, err := makeCertificate(certPEM, keyPEM)
 		if err != nil {
 			t.Fatal(err)
@@ -117,11 +118,14 @@ func c12MakePool(t testing.TB) *c12Pool {
 	return p
 }
 
+// names go over the wire as opaque tokens; `:` and `/` (URI names) are separators there
+var c12WireRepl = strings.NewReplacer(":", "~", "/", "|")
+
 func c12List(l []string) string {
 	if len(l) == 0 {
 		return "-"
 	}
-	return strings.Join(l, ",")
+	return c12WireRepl.Replace(strings.Join(l, ","))
 }
 
 func c12Dash(s string) string {
@@ -173,7 +177,7 @@ func (p *c12Pool) state(cache *Cache) (string, map[string]bool) {
 		for i, h := range hs {
 			ts[i] = p.tok(h)
 		}
-		is = append(is, c12Dash(n)+"="+c12List(ts))
+		is = append(is, c12Dash(c12WireRepl.Replace(n))+"="+c12List(ts))
 	}
 	sort.Strings(cs)
 	sort.Strings(is)
